@@ -272,6 +272,10 @@ def e2_server_spec(draw, nparts, up=True):
         'style': draw(st.integers(0, 7)),
         'up': draw(st.sampled_from([True, True, True, True, False]))
         if not up else True,
+        # a self-detected trait that is not in the published /traits list;
+        # only servers of the initial topology may carry it (see E2 notes)
+        'tx': draw(st.sampled_from([False, False, True])) if not up
+        else False,
     }
 
 
@@ -308,7 +312,8 @@ def e2_op_strategies(nparts, ngroups, profile):
     lease = st.sampled_from([None, None, None, '1h', '1d', '6d', '30d']) \
         if profile.get('lease', True) else st.none()
     traits = st.sampled_from(
-        [[], [], [], ['ta'], ['tb'], ['ta', 'tb'], ['nosuch']]) \
+        [[], [], [], ['ta'], ['tb'], ['ta', 'tb'], ['nosuch'], ['tx'],
+         ['ta', 'tx']]) \
         if profile.get('traits', True) else st.just([])
     group = st.one_of(st.none(), st.none(),
                       st.integers(0, max(0, ngroups - 1))) \
@@ -335,7 +340,8 @@ def e2_op_strategies(nparts, ngroups, profile):
         'prio': st.tuples(st.just('prio'), idx,
                           st.sampled_from([0, 1, 5, 50, 100])).map(list),
         'srv': st.tuples(st.just('srv'), st.integers(0, 8),
-                         e2_server_spec(nparts, up=False)).map(list),
+                         e2_server_spec(nparts, up=False).map(
+                             lambda sp: dict(sp, tx=False))).map(list),
         'rmsrv': st.tuples(st.just('rmsrv'), idx).map(list),
         'down': st.tuples(st.just('down'), idx).map(list),
         'up': st.tuples(st.just('up'), idx, st.one_of(
@@ -433,7 +439,8 @@ def master_case(draw, profile=None):
         racks = []
         for _r in range(draw(st.integers(1, profile.get('max_racks', 2)))):
             racks.append(draw(st.lists(
-                e2_server_spec(nparts, up=False),
+                e2_server_spec(nparts, up=False).map(
+                    lambda sp: dict(sp, up=True) if sp.get('tx') else sp),
                 min_size=0 if racks else profile.get('min_servers', 1),
                 max_size=profile.get('max_servers', 3))))
         pods.append(racks)
